@@ -690,6 +690,19 @@ func handlerOps(rng *rand.Rand, prm params, rich bool) []string {
 		}
 		ops = append(ops, "hcb "+strings.Join(t, " "))
 	}
+	// a request naming MANY blocks the responder knows (the fast synchroniser sends 2*validators-1 ids: 205 on a
+	// 103-validator chain), newest first and shuffled
+	{
+		t := []string{}
+		for h := prm.P; h >= 0 && len(t) < 72; h-- {
+			t = append(t, ptok(h))
+		}
+		if len(t) > 16 {
+			ops = append(ops, "hcb "+strings.Join(t, " "))
+			rng.Shuffle(len(t), func(a, b int) { t[a], t[b] = t[b], t[a] })
+			ops = append(ops, "hcb "+strings.Join(t[:17+rng.Intn(len(t)-16)], " "))
+		}
+	}
 	// single ids across the fork point, the cache boundary and the tips
 	hs := map[int]bool{0: true, 1: true, prm.F: true, prm.F + 1: true, prm.F - 1: true, prm.P: true, prm.P + 1: true, prm.Q: true,
 		prm.P - prm.Cache: true, prm.P - prm.Cache + 1: true, prm.P - prm.Cache - 1: true,
